@@ -101,6 +101,13 @@ func c04(r *Run) {
 		r.borrow([]string{"C02.R4:WriteDirect:unlinked-split"}, "C02.R4", "C04.R1", func() { c02(r) })
 	}
 
+	if w.Cfg.Name == "linux" {
+		// the reader side: bytes that arrived before the close are delivered before end-of-stream is reported (C07.R5), and the
+		// buffer's accounting primitives are used by every consuming method (C01.R2/R3)
+		r.borrow([]string{"C07.R5:closed-only-when-short", "C07.R5:timeout-only-when-short"}, "C07.R5", "C04.R4", func() { c07(r) })
+		r.borrow([]string{"C01.R2:", "C01.R3:"}, "C01.R", "C04.R6.", func() { c01(r) })
+	}
+
 	// ---- R4 hang-up after drain; R5 flush hand-off ----------------------------------------------------
 	r.borrow([]string{"C11.R3:drain-before-hup", "C11.R3:drained-count-feeds-decision", "C11.R3:hup-verdict-has-reason"}, "C11.R3", "C04.R4", func() { c11(r) })
 	if w.Cfg.Name == "linux" || w.Cfg.Name == "darwin" {
